@@ -348,9 +348,17 @@ def _check_pk(EoN, G, pklist, rp, probs, where):
 def _check_pgfs(EoN, pklist, evaltab, rp, probs, where):
     Pk = {k: a / float(b) for k, a, b in pklist}
     calls = 0
-    for name, col in (("get_PGF", 1), ("get_PGFPrime", 2), ("get_PGFDPrime", 3)):
+    # first every function on its own copy; then all three on ONE dict object, the derivatives first (a helper that edits
+    # the dictionary it is handed shows in the functions built from it afterwards)
+    shared = dict(Pk)
+    plan = [("get_PGF", 1, None), ("get_PGFPrime", 2, None), ("get_PGFDPrime", 3, None),
+            ("get_PGFPrime", 2, shared), ("get_PGFDPrime", 3, shared), ("get_PGF", 1, shared)]
+    for name, col, obj in plan:
+        if obj is not None:
+            where_ = where
+            where = where_ + "|one Pk object handed to the derivative helpers first"
         try:
-            f = getattr(EoN, name)(dict(Pk))
+            f = getattr(EoN, name)(dict(Pk) if obj is None else obj)
         except Exception as ex:
             probs.append(_problem("%s|raises|%s" % (name, where), "%s(%r) raised %r" % (name, Pk, ex), rp))
             continue
@@ -368,6 +376,11 @@ def _check_pgfs(EoN, pklist, evaltab, rp, probs, where):
                                       % (name, what, {1: "generating function", 2: "formal derivative", 3: "second formal derivative"}[col],
                                          "1" if a == b else "interior point"),
                                       "%s(%r)(%d/%d) = %r, specification %d/%d" % (name, Pk, a, b, got, num, den), rp))
+                break
+        if obj is not None:
+            where = where_
+            if obj != Pk:
+                probs.append(_problem("%s|the caller's Pk dictionary was changed|%s" % (name, where), "%s was handed %r and left %r" % (name, Pk, obj), rp))
                 break
     return calls
 
